@@ -534,7 +534,7 @@ theorem reload_RJ {K : Keys} (s : State) (h : RJ K s) : RJ K (reload K s) := by
 
 /-- what the undo operation needs on top of the invariants: see `UndoFresh` -/
 def UndoOK (K : Keys) (s : State) : Op → Prop
-  | .undo mf => ∀ s' txs, disconnectUtxo s = some (s', txs) → UndoFresh K mf s' txs
+  | .undo _ mf => ∀ s' txs, disconnectUtxo s = some (s', txs) → UndoFresh K mf s' txs
   | _ => True
 
 def UndoOKRun (K : Keys) : State → List Op → Prop
@@ -561,14 +561,15 @@ theorem step_RJ {K : Keys} {W : Tx → Prop} {rank : TxId → Nat} (U : Univ K W
   | submitLocal t mf => exact submitLocal_RJ U mf s t hI h (hW t (by simp [Op.txs]))
   | block hh txs mf =>
     exact blockMined_RJ U mf _ txs (connectUtxo_InvR s hh txs hI hW) (h.of_shrink (connectUtxo_shrink s hh txs))
-  | undo mf =>
+  | undo uh mf =>
     simp only [step]
     cases hd : disconnectUtxo s with
     | none => exact h
     | some p =>
       obtain ⟨s', txs⟩ := p
       obtain ⟨h1, h2⟩ := disconnectUtxo_InvR s s' txs hI hd
-      exact blockUndone_RJ U mf s' txs h1 (h.of_shrink (disconnectUtxo_shrink s s' txs hd)) h2 (hu s' txs hd)
+      exact (blockUndone_RJ U mf s' txs h1 (h.of_shrink (disconnectUtxo_shrink s s' txs hd)) h2
+        (hu s' txs hd)).of_shrink (expire_shrink K _ _)
   | tip hh => exact h.of_shrink (Shrink.of_eq rfl rfl rfl rfl rfl rfl)
   | expire old => exact h.of_shrink (expire_shrink K s old)
   | evict v =>
